@@ -9,8 +9,10 @@
      this byte map is C08's theorem.  What IS transcribed here is the error behaviour of
      paged::Memory::{store,load} that the executor can observe:
        - store: width 0 or not a multiple of 8          => Err(Custom)
-                `address + bits/8` overflows u64         => Panic (overflow-checked build; the sum is
-                                                            computed before anything is written)
+                `address + bits/8` beyond 2^64           => Err(Custom) (as repaired by 4699f48: the end of
+                                                            the write is computed in u128 before anything
+                                                            is written; a write ending exactly at 2^64 is
+                                                            accepted)
        - load:  width not a multiple of 8, width 0      => Err(Custom)
                 some byte of the range absent           => Ok(None)   (=> ExecutorInvalidAddress)
                 `address + offset` overflows u64 in the byte-wise path (only reachable when every
@@ -53,7 +55,7 @@ Definition addr_u64 (c : const) : res Z := if cval c <? USIZE then Ok (cval c) e
 (* ---------- the observable behaviour of paged::Memory::{store, load} over the byte map ---------- *)
 Definition xm_store (m : bmem) (a : Z) (v : const) : res bmem :=
   if negb (cbits v mod 8 =? 0) || (cbits v =? 0) then Err ECustom
-  else if USIZE <=? a + cbits v / 8 then Panic
+  else if USIZE <? a + cbits v / 8 then Err ECustom
   else Ok (mkbmem (bm_big m)
              (write_bytes (bm_bytes m) a (value_bytes (bm_big m) (Z.to_nat (cbits v / 8)) (cval v)))).
 
